@@ -101,6 +101,76 @@ Proof.
   replace (0 <? rl) with false by lia. replace (0 <? ll) with false by lia. reflexivity.
 Qed.
 
+(* IterMut: slice_take_first_mut / slice_take_last_mut leave `&mut []` in a field
+   they find empty (core::mem::take), so the exhausted iterator is iter_empty; the
+   window it stands for is the same as for Iter *)
+Lemma iter_mut_next_some s it lo hi :
+  inv s it lo hi -> lo < hi ->
+  exists it', iter_mut_next it = (it', Some (phys s lo)) /\ inv s it' (lo + 1) hi.
+Proof.
+  destruct it as [[ro rl] [lo_ ll]]. unfold inv, iter_mut_next, slice_take_first_mut.
+  cbn [it_right it_left soff slen]. intros (H1 & H2 & H3 & Hr & Hl) Hlt.
+  destruct (0 <? rl) eqn:E.
+  - eexists. split.
+    + rewrite <- (Z.add_0_r lo), <- Hr by lia. rewrite Z.add_0_r. reflexivity.
+    + cbn [it_right it_left soff slen]. inv_split.
+      * replace (lo + 1 + i) with (lo + (i + 1)) by lia.
+        rewrite <- Hr by lia. lia.
+      * replace (lo + 1 + (rl - 1) + i) with (lo + rl + i) by lia.
+        apply Hl. lia.
+  - destruct (0 <? ll) eqn:E2; [|exfalso; lia].
+    eexists. split.
+    + replace lo with (lo + rl + 0) at 1 by lia. rewrite <- Hl by lia.
+      rewrite Z.add_0_r. reflexivity.
+    + cbn [it_right it_left soff slen empty_slice]. inv_split.
+      * lia.
+      * replace (lo + 1 + 0 + i) with (lo + rl + (i + 1)) by lia.
+        rewrite <- Hl by lia. lia.
+Qed.
+
+Lemma iter_mut_next_none s it lo hi :
+  inv s it lo hi -> hi <= lo -> iter_mut_next it = (iter_empty, None) /\ inv s iter_empty lo hi.
+Proof.
+  destruct it as [[ro rl] [lo_ ll]]. unfold inv, iter_mut_next, slice_take_first_mut.
+  cbn [it_right it_left soff slen]. intros (H1 & H2 & H3 & Hr & Hl) Hge.
+  replace (0 <? rl) with false by lia. replace (0 <? ll) with false by lia.
+  split; [reflexivity|]. unfold iter_empty. cbn [it_right it_left soff slen empty_slice].
+  inv_split; lia.
+Qed.
+
+Lemma iter_mut_next_back_some s it lo hi :
+  inv s it lo hi -> lo < hi ->
+  exists it', iter_mut_next_back it = (it', Some (phys s (hi - 1))) /\ inv s it' lo (hi - 1).
+Proof.
+  destruct it as [[ro rl] [lo_ ll]]. unfold inv, iter_mut_next_back, slice_take_last_mut.
+  cbn [it_right it_left soff slen]. intros (H1 & H2 & H3 & Hr & Hl) Hlt.
+  destruct (0 <? ll) eqn:E.
+  - eexists. split.
+    + replace (hi - 1) with (lo + rl + (ll - 1)) by lia. rewrite <- Hl by lia.
+      replace (lo_ + ll - 1) with (lo_ + (ll - 1)) by lia. reflexivity.
+    + cbn [it_right it_left soff slen]. inv_split.
+      * apply Hr. lia.
+      * apply Hl. lia.
+  - destruct (0 <? rl) eqn:E2; [|exfalso; lia].
+    eexists. split.
+    + replace (hi - 1) with (lo + (rl - 1)) by lia. rewrite <- Hr by lia.
+      replace (ro + rl - 1) with (ro + (rl - 1)) by lia. reflexivity.
+    + cbn [it_right it_left soff slen empty_slice]. inv_split.
+      * apply Hr. lia.
+      * lia.
+Qed.
+
+Lemma iter_mut_next_back_none s it lo hi :
+  inv s it lo hi -> hi <= lo ->
+  iter_mut_next_back it = (iter_empty, None) /\ inv s iter_empty lo hi.
+Proof.
+  destruct it as [[ro rl] [lo_ ll]]. unfold inv, iter_mut_next_back, slice_take_last_mut.
+  cbn [it_right it_left soff slen]. intros (H1 & H2 & H3 & Hr & Hl) Hge.
+  replace (0 <? rl) with false by lia. replace (0 <? ll) with false by lia.
+  split; [reflexivity|]. unfold iter_empty. cbn [it_right it_left soff slen empty_slice].
+  inv_split; lia.
+Qed.
+
 Lemma iter_len_ok s0 it lo hi s w :
   inv s0 it lo hi -> hi - lo < W -> iter_len it s w = (Ok (hi - lo), s, w).
 Proof.
@@ -344,9 +414,8 @@ Proof.
         by (try lia; eapply inv_same; eauto).
       rewrite lslots_sublist by lia. rewrite Hsame. reflexivity.
     + (* next, write *)
-      unfold iter_mut_next.
       destruct (Nat.ltb_spec lo hi) as [Hlt|Hge].
-      * destruct (iter_next_some s it _ _ Hi ltac:(lia)) as (it' & Hn & Hi').
+      * destruct (iter_mut_next_some s it _ _ Hi ltac:(lia)) as (it' & Hn & Hi').
         replace (Z.of_nat lo + 1) with (Z.of_nat (S lo)) in Hi' by lia.
         specialize (Hst ltac:(lia)).
         set (s1 := b_items s (s_write (items s) (phys s (Z.of_nat lo)) v)).
@@ -358,15 +427,15 @@ Proof.
         unfold s1 in Hsp. rewrite abs_set in Hsp by lia. rewrite Nat2Z.id in Hsp.
         rewrite Hsp. rewrite nth_error_zn_nat by (rewrite abs_zlen; lia).
         rewrite zn_abs by lia. reflexivity.
-      * destruct (IH s w it lo hi HW Hi Hlh Hhi Hcs)
+      * destruct (iter_mut_next_none s it _ _ Hi ltac:(lia)) as (Hn & Hi').
+        destruct (IH s w iter_empty lo hi HW Hi' Hlh Hhi Hcs)
           as (rs & s' & wd & Hr & HW2 & Hc & Hz & Hs & Hsp).
-        rewrite (iter_next_none s it _ _ Hi) by lia. mcbn. erewrite bind_ok by exact Hr.
+        rewrite Hn. mcbn. erewrite bind_ok by exact Hr.
         eexists _, s', wd. split; [reflexivity|]. repeat (split; [assumption|]).
         rewrite Hsp. reflexivity.
     + (* next_back, write *)
-      unfold iter_mut_next_back.
       destruct (Nat.ltb_spec lo hi) as [Hlt|Hge].
-      * destruct (iter_next_back_some s it _ _ Hi ltac:(lia)) as (it' & Hn & Hi').
+      * destruct (iter_mut_next_back_some s it _ _ Hi ltac:(lia)) as (it' & Hn & Hi').
         replace (Z.of_nat hi - 1) with (Z.of_nat (hi - 1)) in Hi', Hn by lia.
         specialize (Hst ltac:(lia)).
         set (s1 := b_items s (s_write (items s) (phys s (Z.of_nat (hi - 1))) v)).
@@ -378,9 +447,10 @@ Proof.
         unfold s1 in Hsp. rewrite abs_set in Hsp by lia. rewrite Nat2Z.id in Hsp.
         rewrite Hsp. rewrite nth_error_zn_nat by (rewrite abs_zlen; lia).
         rewrite zn_abs by lia. reflexivity.
-      * destruct (IH s w it lo hi HW Hi Hlh Hhi Hcs)
+      * destruct (iter_mut_next_back_none s it _ _ Hi ltac:(lia)) as (Hn & Hi').
+        destruct (IH s w iter_empty lo hi HW Hi' Hlh Hhi Hcs)
           as (rs & s' & wd & Hr & HW2 & Hc & Hz & Hs & Hsp).
-        rewrite (iter_next_back_none s it _ _ Hi) by lia. mcbn. erewrite bind_ok by exact Hr.
+        rewrite Hn. mcbn. erewrite bind_ok by exact Hr.
         eexists _, s', wd. split; [reflexivity|]. repeat (split; [assumption|]).
         rewrite Hsp. reflexivity.
 Qed.
